@@ -42,24 +42,32 @@ def build_time(tbl):
     t = np.array(tbl["times"], dtype="int64").astype("datetime64[s]").astype("datetime64[ns]")
     if tbl.get("frac_ms"):
         t = t + np.array(tbl["frac_ms"], dtype="int64").astype("timedelta64[ms]")
+    if tbl.get("frac_ns"):
+        t = t + np.array(tbl["frac_ns"], dtype="int64").astype("timedelta64[ns]")
     if tbl.get("nat"):
         t[np.array(tbl["nat"], dtype=int)] = np.datetime64("NaT")
     return t
 
 
 def row_times(tbl):
-    """Row times as the reference model sees them: seconds (float when fractional), None for NaT."""
+    """Row times as the reference model sees them: integer nanoseconds since the epoch, None for NaT."""
     out = []
     nat = set(tbl.get("nat") or [])
-    frac = tbl.get("frac_ms")
+    fms = tbl.get("frac_ms")
+    fns = tbl.get("frac_ns")
     for i, t in enumerate(tbl["times"]):
         if i in nat:
             out.append(None)
-        elif frac and frac[i]:
-            out.append(t + frac[i] / 1000.0)
         else:
-            out.append(t)
+            out.append(int(t) * 10**9 + (fms[i] * 10**6 if fms else 0) + (fns[i] if fns else 0))
     return out
+
+
+def bound_ns(window, which):
+    """A window bound in integer nanoseconds (None = open)."""
+    if not window or window.get(which) is None:
+        return None
+    return int(window[which]) * 10**9 + int(window.get(which + "_ns", 0))
 
 
 def typed_col(values, dtype):
@@ -185,9 +193,16 @@ def iso(epoch):
     return datetime.fromtimestamp(epoch, tz=timezone.utc).replace(tzinfo=None).isoformat()
 
 
-def window_value(epoch, form):
+def window_value(epoch, form, ns=0):
     if epoch is None:
         return None
+    if ns:
+        # a bound with a sub-second part down to the nanosecond: only spellings that can hold it
+        if form == "iso":
+            return f"{iso(epoch)}.{int(ns):09d}"
+        if form == "dt64":
+            return np.datetime64(int(epoch) * 10**9 + int(ns), "ns")
+        return pd.Timestamp(int(epoch) * 10**9 + int(ns))
     if form == "iso":
         return iso(epoch)
     if form == "datetime":
@@ -200,17 +215,16 @@ def window_value(epoch, form):
 
 
 def model_rows(window, times):
-    """Reference window membership: starting <= t < ending, absent bound open."""
-    t = np.array([np.nan if x is None else x for x in times], dtype="float64")
-    m = np.ones(t.shape, dtype=bool)
-    if window:  # (a source without a time axis is only ever paired with window-less contexts)
-        # a row without a time (NaT) satisfies no bound: it is outside every window that has one
-        with np.errstate(invalid="ignore"):
-            if window.get("starting") is not None:
-                m &= t >= window["starting"]
-            if window.get("ending") is not None:
-                m &= t < window["ending"]
-    return m
+    """Reference window membership: starting <= t < ending, absent bound open.
+    ``times`` are integer nanoseconds (``row_times``); a row without a time (None) satisfies no bound."""
+    lo, hi = bound_ns(window, "starting"), bound_ns(window, "ending")
+    out = []
+    for t in times:
+        if t is None:
+            out.append(lo is None and hi is None)
+        else:
+            out.append((lo is None or t >= lo) and (hi is None or t < hi))
+    return np.array(out, dtype=bool)
 
 
 # --------------------------------------------------------------------------
@@ -270,9 +284,9 @@ def config_document(cfg, text=False):
         if w is not None:
             wd = OrderedDict()
             if w.get("starting") is not None:
-                wd["starting"] = window_value(w["starting"], form)
+                wd["starting"] = window_value(w["starting"], form, w.get("starting_ns", 0))
             if w.get("ending") is not None:
-                wd["ending"] = window_value(w["ending"], form)
+                wd["ending"] = window_value(w["ending"], form, w.get("ending_ns", 0))
             d["window"] = wd
         if c.get("region"):
             d["region"] = json.loads(json.dumps(c["region"]))
@@ -395,7 +409,7 @@ def context_key(c):
     """Two configured contexts with the same window and region are one Context for
     Config.contexts: their calls are run together, at the position of the first."""
     w = c.get("window") or {}
-    return (w.get("starting"), w.get("ending"), json.dumps(c.get("region"), sort_keys=True))
+    return (bound_ns(w, "starting"), bound_ns(w, "ending"), json.dumps(c.get("region"), sort_keys=True))
 
 
 def expected_calls(cfg, table_sids):
